@@ -26,13 +26,14 @@ REAL = ['TotalDepth.RP66V1.core.LogicalFile.LogicalIndex / LogicalFile.populate_
         'common.LogPass (FrameChannel array reuse)', 'common.Slice', 'RP66V1.core.LogicalRecord.EFLR / IFLR', 'RP66V1.core.XAxis', 'RP66V1.core.Index / File (shared cursor)']
 STUB = ['file object -> SimFile', 'file writer -> independent producers worlds/dlis_logical.py + worlds/dlis_phys.py']
 ASSUMPTIONS = [
+    'simulated machine: every process that runs library code has a 4 GiB address space (sim/runner.py MEMORY_LIMIT_BYTES); a request for more fails at once with MemoryError',
     'VSINGL is left out of the producer (its bit layout could not be cross-checked offline); NaN / denormal / reserved patterns are not generated (C07 territory)',
     'elements of a multi-dimensional channel are compared in recorded (flat) order; which subscript varies fastest is not asserted',
     'for Sample(N) the selected indices are taken from the selector itself after checking count = min(N, n), strictly increasing, first = 0 (which indices a sample picks is C15)',
     'a slice selecting no frame is a legal failing call: it may raise a TotalDepth exception or return 0, and must not change later results',
     'EFLR sub-language: every object carries all template attributes (value, count+value or absent); no invariant attributes, no redundant/replacement sets',
 ]
-PROBES = ['negative_step', 'partial_after_full_same_count', 'full_after_partial_same_count', 'sample_lt_n', 'step_gt1', 'subset_excl_last', 'subset_excl_middle', 'dim2',
+PROBES = ['channels_object_reused', 'negative_step', 'partial_after_full_same_count', 'full_after_partial_same_count', 'sample_lt_n', 'step_gt1', 'subset_excl_last', 'subset_excl_middle', 'dim2',
           'interleaved_types', 'after_failed_populate', 'fetch_between', 'subset_unknown_name', 'empty_iflr', 'multi_lf', 'frame_number_gap', 'record_spans_vrs']
 
 LogicalFile = Slice = ExceptionTotalDepth = None
@@ -90,7 +91,8 @@ def gen_ops(rng, model):
 def generate(seed, tier):
     rng = seeds.Rng(seed)
     model = DL.gen_model(rng, max_frames=rng.pick([6, 20, 60]))
-    return {'world': 'dlis_logical', 'model': model, 'ops': gen_ops(rng, model)}
+    # 'reuse_channels': the caller keeps ONE set object per frame array and edits it in place between calls
+    return {'world': 'dlis_logical', 'model': model, 'ops': gen_ops(rng, model), 'reuse_channels': rng.chance(0.35)}
 
 
 def select(sl, n):
@@ -188,6 +190,7 @@ def execute(scenario):
     # ---- history
     op_shapes = []
     hist = {}          # (li, fi) -> list of ('full'|'partial', count)
+    shared_sets = {}
     prev_failed = False
     prev_kind = None
     for k, op in enumerate(scenario['ops']):
@@ -230,8 +233,15 @@ def execute(scenario):
         want_sel = [c == 0 or (chans is None) or (nm in chans) for c, nm in enumerate(names)]
         facts = {'slice_kind': 'none' if sl is None else sl[0], 'channels': 'all' if chans is None else ('none' if not chans else 'subset'),
                  'after_failed': prev_failed, 'dims_max': max(len(c['dims']) for c in fr['channels'])}
+        if chans is not None and scenario.get('reuse_channels'):
+            arg = shared_sets.setdefault((li, fi), set())
+            arg.clear()
+            arg.update(chans)
+            res.probe('channels_object_reused')
+        else:
+            arg = set(chans) if chans is not None else None
         try:
-            ret = lf.populate_frame_array(fa, fs, set(chans) if chans is not None else None)
+            ret = lf.populate_frame_array(fa, fs, arg)
             exc = None
         except Exception as err:
             ret, exc = None, err
